@@ -17,7 +17,7 @@ from .smt import (
 )
 from .smt_exec import Fork, Raised, State, Verifier, has_effect_call
 
-SPEC_FUNCS = {"ncalls", "callarg", "old", "forall", "implies", "elems", "has", "get", "isinst", "fresh_obj", "ite", "trigger",
+SPEC_FUNCS = {"callres", "truthy", "ncalls", "callarg", "old", "forall", "implies", "elems", "has", "get", "isinst", "fresh_obj", "ite", "trigger",
               "strlen", "char_at", "typeis", "allocated", "iff", "exists_in", "substr", "int_of", "same"}
 
 
@@ -235,6 +235,12 @@ class FuncVerifier(Verifier):
             if name == "join":
                 fn = z3.Function("py_join", S, Val, S)
                 return mk_str(fn(s, self.to_val(st, args[0])))
+            if name in ("isspace", "isdigit", "isalpha", "isalnum", "isupper", "islower", "isidentifier", "isascii"):
+                fn = z3.Function("py_" + name, S, B)
+                return mk_bool(fn(s))
+            if name in ("lower", "upper"):
+                fn = z3.Function("py_" + name, S, S)
+                return mk_str(fn(s))
             if name == "format":
                 fn = z3.Function("py_format", S, S)
                 return mk_str(fn(s))
@@ -472,8 +478,10 @@ class FuncVerifier(Verifier):
             for k, ety in enumerate(con.returns[1]):
                 items.append(self.assume_type(st, fresh("res", Val), ety))
             res = mk_tuple(items)
+        logged_entry = None
         if qual.startswith("cb.") or con.props.count("logged"):
-            st.calllog.append((qual, [bound[p] for p in con.params]))
+            logged_entry = [qual, [bound[p] for p in con.params], None]
+            st.calllog.append(logged_entry)
         if con.calls is not None:
             for (cb, argexprs) in con.calls:
                 cv = self.spec_view(pre, dict(bound), None)
@@ -495,6 +503,8 @@ class FuncVerifier(Verifier):
             if keep:
                 # own log entries of a logged callee stay countable
                 st.callbase[qual] = (base_q + len(keep)) if base_q is not None else z3.IntVal(len(keep))
+        if logged_entry is not None:
+            logged_entry[2] = res
         post_locals = dict(bound, result=res)
         pv = self.spec_view(st, post_locals, pre)
         for clause in con.ensures:
@@ -713,6 +723,14 @@ class FuncVerifier(Verifier):
             if i >= len(cs):
                 return mk_none()
             return cs[i][1][j]
+        if name == "callres":
+            nm, i = node.args[0].value, node.args[1].value
+            cs = [c for c in st.calllog if c[0] == nm]
+            if i >= len(cs) or len(cs[i]) < 3 or cs[i][2] is None:
+                return mk_none()
+            return cs[i][2]
+        if name == "truthy":
+            return mk_bool(self.truthy(st, self.ev(node.args[0], st)))
         if name == "same":
             a, b = self.ev(node.args[0], st), self.ev(node.args[1], st)
             return mk_bool(self.to_val(st, a) == self.to_val(st, b))
